@@ -185,3 +185,35 @@ def check_u64_grid(prop, tier, repo, verif):
     res['wall_s'] = round(time.time() - t0, 1)
     res['checker_cmd'] = 'tools/u64probe %d (built against the current tree): %s executions' % (n, m.group(1))
     return res
+
+
+def check_step_iterator(prop, tier, repo, verif):
+    t0 = time.time()
+    res = {'unit': 'bounded:step_iterator', 'engine': 'bounded run of the real processor: execute / execute_iter (tools/iterprobe)', 'status': 'ok',
+           'failures': [], 'undecided': [], 'bounded': True,
+           'bound': '6 programs (stack overflow, deep inputs, while loop, call with a deep caller stack, memory + locals, clk): re-run, expected-cycles hints 64/128/1024/4096, debug-mode assembly; every clock of execute_iter forward and backward against the main trace'}
+    binp, err = build_tool(repo, verif, 'iterprobe')
+    if binp is None:
+        res['status'] = 'undecided'
+        res['undecided'].append('iterprobe does not build against the current tree: ' + err)
+        return res
+    p = subprocess.run([binp], stdout=subprocess.PIPE, stderr=subprocess.PIPE, text=True)
+    m = re.search(r'SUMMARY programs=(\d+) checks=(\d+) failures=(\d+)', p.stdout)
+    if not m:
+        res['status'] = 'undecided'
+        res['undecided'].append('iterprobe gave no summary (panic?): ' + (p.stdout + p.stderr)[-400:])
+        return res
+    seen = set()
+    for ln in p.stdout.split('\n'):
+        mm = re.match(r'FAIL (\S+) (\S+) clk=(\d+) (.*)', ln)
+        if not mm or mm.group(2) in seen:
+            continue
+        seen.add(mm.group(2))
+        res['failures'].append({'obligation': '%s/bounded/step_iterator#%s' % (prop, mm.group(2)), 'message': 'step iterator / determinism check: ' + mm.group(2),
+                                'rendered': ln, 'origins': ['processor/src/debug.rs', 'processor/src/stack/mod.rs', 'processor/src/stack/overflow.rs'],
+                                'failing_input': {'program': mm.group(1), 'clk': int(mm.group(3)), 'detail': mm.group(4)[:200], 'cmd': '.cache/target/debug/iterprobe'}})
+    if res['failures']:
+        res['status'] = 'fail'
+    res['wall_s'] = round(time.time() - t0, 1)
+    res['checker_cmd'] = 'tools/iterprobe (built against the current tree): %s checks' % m.group(2)
+    return res
